@@ -2122,10 +2122,14 @@ class _GroupElem(ABC):
 
                 else:
                     # This is the most time-consuming method.
-                    # Residual of the isoparametric map x(xi) = N(xi) @ X at the point xP.
+                    # Residual of the isoparametric map x(xi) = N(xi) @ X at the point xP,
+                    # in units of the element size: the tolerances of least_squares
+                    # (gtol is absolute) must not depend on the unit of length.
+                    size = np.linalg.norm(np.ptp(coordElemBase[:, :dim], axis=0))
+
                     def Eval(xi: _types.FloatArray, xP: _types.FloatArray):
                         N = _GroupElem._Eval_Functions(N_tild, xi.reshape(1, -1))
-                        J = N[0, 0] @ coordElemBase[:, :dim] - xP  # cost function
+                        J = (N[0, 0] @ coordElemBase[:, :dim] - xP) / size  # cost function
                         return J
 
                     xiP = []
